@@ -8,6 +8,7 @@ import (
 	"github.com/nyaruka/gocommon/stringsx"
 	"github.com/nyaruka/goflow/assets"
 	"github.com/nyaruka/goflow/utils"
+	"golang.org/x/text/language"
 )
 
 // Template represents messaging templates used by channels types such as WhatsApp
@@ -37,7 +38,7 @@ func (t *Template) FindTranslation(channel *Channel, locales []i18n.Locale) *Tem
 	candidates := make(map[string]*TemplateTranslation)
 	candidateLocales := make([]string, 0, 5)
 	for _, tr := range t.Template.Translations() {
-		if tr.Channel().UUID == channel.UUID() {
+		if tr.Channel().UUID == channel.UUID() && isMatchableLocale(tr.Locale()) {
 			candidates[string(tr.Locale())] = NewTemplateTranslation(tr)
 			candidateLocales = append(candidateLocales, string(tr.Locale()))
 		}
@@ -46,8 +47,23 @@ func (t *Template) FindTranslation(channel *Channel, locales []i18n.Locale) *Tem
 		return nil
 	}
 
-	match := i18n.NewBCP47Matcher(candidateLocales...).ForLocales(locales...)
+	// an environment without languages gives us an empty locale, and contacts can have languages that aren't real..
+	// neither can be matched so ignore them
+	preferred := make([]i18n.Locale, 0, len(locales))
+	for _, l := range locales {
+		if isMatchableLocale(l) {
+			preferred = append(preferred, l)
+		}
+	}
+
+	match := i18n.NewBCP47Matcher(candidateLocales...).ForLocales(preferred...)
 	return candidates[match]
+}
+
+// the BCP47 matcher panics on anything that isn't a valid language tag
+func isMatchableLocale(l i18n.Locale) bool {
+	_, err := language.Parse(string(l))
+	return err == nil
 }
 
 // Templating generates a templating object for the passed in translation and variables
